@@ -13,7 +13,7 @@ Streams (all differential: real C vs Lean model, plus an independent property or
 The oracle of `srv` is a reference rule evaluator written against the property statement: a file is
 only ever sent if the rules, evaluated on the canonical URL of THAT FILE and on the reference client
 address, authorise it."""
-import base64, ipaddress, itertools, os, re
+import base64, ipaddress, itertools, os, re, socket
 from .. import common as C
 
 MANIFEST = dict(
@@ -243,15 +243,26 @@ class Scope:
             except UnicodeDecodeError:
                 m = False
             return m != self.neg
-        try:
-            a = ipaddress.ip_address(addr.decode())
-        except ValueError:
+        a = lax_ip(addr)
+        if a is None:
             return self.neg
         if "/" in self.net:
             m = ip_in_net(a, ipaddress.ip_network(self.net, strict=False))
         else:
             m = a == ipaddress.ip_address(self.net)
         return m != self.neg
+
+
+def lax_ip(text):
+    """address a textual form stands for, the way getaddrinfo(AI_NUMERICHOST) reads it"""
+    try:
+        return ipaddress.ip_address(text.decode())
+    except (ValueError, UnicodeDecodeError):
+        pass
+    try:
+        return ipaddress.ip_address(socket.inet_aton(text.decode()))      # 10.0.0.01, 1.2.3, 0x7f.1 ...
+    except (OSError, UnicodeDecodeError, ValueError):
+        return None
 
 
 def ip_in_net(a, n):
@@ -525,7 +536,8 @@ def srv_oracle(line, out):
         if exact and addr != want:
             return verdict("request attributed to a client address that is not the reference address "
                            "(TCP peer, or right-most untrusted hop behind a trusted forwarder)",
-                           "used %r, reference %r, peer %r, fields %r, status %s" % (addr, want, rq.peer, rq.fields, st))
+                           "used %r, reference %r, peer %r, fields %r, status %s, target %r, host %r, config:\n%s"
+                           % (addr, want, rq.peer, rq.fields, st, rq.target, rq.host, cfg.text().decode()))
         if not exact:
             # safety envelope: never an address that is not the peer or part of the header, and never
             # anything but the peer when the peer is not a trusted forwarder
@@ -721,6 +733,10 @@ def rand_blocks(rng, lc, limits=False):
             b.excl = rng.choice(EXCL_SETS + [[]])
         if rng.random() < 0.15:
             b.deny = b.deny if b.deny is not None else rng.choice(DENY_SETS)
+        if sc.kind in "IH" and rng.random() < 0.4:
+            # an extforward directive makes mod_extforward evaluate (and cache) this condition with the
+            # TCP peer's address before it changes the address
+            b.fhdrs = rng.choice([[b"X-Forwarded-For", b"Forwarded"], [b"Forwarded"], [b"X-Forwarded-For"]])
         blocks.append(b)
     return blocks
 
@@ -822,7 +838,7 @@ def rand_request(rng, cfg, base=None, depth=None):
         fields.append((b"Authorization", BAD_CRED))
     absolute = None
     if kind == 1:
-        if rng.random() < 0.12:
+        if rng.random() < 0.12 and target.startswith(b"/"):
             absolute = rng.choice(HOSTS + [b"SECURE.example", b"secure.example:80"])
             host = None if rng.random() < 0.7 else absolute
         # h1 line syntax: SP, CR, LF and NUL cannot be written inside the target of a valid line
@@ -865,7 +881,9 @@ def closure_lines(ctx, root, depth, per_cfg):
         ("url-eq-cond", [Block(Scope("G")), Block(Scope("U", op="e", val=b"/private/data.bin"), deny=[b""])], [b"/private/data.bin"]),
         ("url-regex-cond", [Block(Scope("G")), Block(Scope("R", rkind="cs", val=b".php"), deny=[b""])], [b"/app.php", b"/secret/run.php"]),
         ("host-cond", [Block(Scope("G")), Block(Scope("H", op="e", val=b"www.example"), deny=[b".txt"])], [b"/a.txt", b"/pub/readme.txt"]),
-        ("ip-cond", [Block(Scope("G"), fwd=[(b"10.0.0.1", b"trust")]), Block(Scope("I", neg=True, net="10.0.0.0/8"), deny=[b""])], [b"/index.html", b"/007/plan.txt"]),
+        ("ip-cond", [Block(Scope("G"), fwd=[(b"10.0.0.1", b"trust")]),
+                     Block(Scope("I", neg=True, net="10.0.0.0/8"), deny=[b""], fhdrs=[b"X-Forwarded-For", b"Forwarded"])],
+         [b"/index.html", b"/007/plan.txt"]),
     ]
     lines = []
     for name, blocks, bases in protections:
@@ -1030,7 +1048,39 @@ def addr_lines(ctx):
     return lines
 
 
+U8_ALPHA = [0x41, 0x7f, 0x80, 0x8f, 0x90, 0x9f, 0xa0, 0xbf, 0xc0, 0xc1, 0xc2, 0xdf, 0xe0, 0xe1, 0xec, 0xed, 0xee, 0xef,
+            0xf0, 0xf1, 0xf3, 0xf4, 0xf5, 0xf7, 0xf8, 0xfb, 0xfc, 0xff]
+
+
+def utf8_lines(ctx):
+    """is a URL visible to PCRE2 (UTF mode) conditions?  every string over the boundary bytes of
+    RFC 3629 up to length 3 (quick) / 4, plus random longer ones"""
+    rng = ctx.rng
+    lines = []
+    for k in range(0, (3 if ctx.quick else 4) + 1):
+        for t in itertools.product(U8_ALPHA, repeat=k):
+            lines.append("utf8 " + hx(bytes(t)))
+    good = ["a", "\u00e9", "\u20ac", "\U0001f600", "\u07ff", "\u0800", "\ud7ff", "\ue000", "\U0010ffff", "/"]
+    for _ in range(5000 if ctx.quick else 50000):
+        s = "".join(rng.choice(good) for _ in range(rng.randint(1, 6))).encode("utf-8")
+        if rng.random() < 0.7:
+            s = mutate(rng, s, [bytes([c]) for c in U8_ALPHA])
+        if b"\x00" not in s:
+            lines.append("utf8 " + hx(s))
+    return lines
+
+
 def addr_oracle(line, out):
+    t = line.split(" ")
+    if t[0] == "utf8":
+        try:
+            unhx(t[1]).decode("utf-8")
+            want = "1"
+        except UnicodeDecodeError:
+            want = "0"
+        if out != want:
+            return verdict("PCRE2 UTF check differs from RFC 3629 well-formedness", "%s -> %s" % (line, out))
+        return None
     t = line.split(" ")
     s = unhx(t[1])
     if t[0] == "pton":
@@ -1055,6 +1105,8 @@ def addr_oracle(line, out):
 
 def addr_classify(line, out):
     t = line.split(" ")
+    if t[0] == "utf8":
+        return "utf8:%s:len%d" % (out, min(len(t[1]) // 2, 5))
     s = unhx(t[1])
     return "%s:%s:%s" % (t[0], out.split(" ")[0], "v6" if b":" in s else ("dots%d" % min(s.count(b"."), 4)))
 
@@ -1090,7 +1142,7 @@ def xff_lines(ctx):
             if v:
                 lines.append(line)
                 _xff_cases[line] = (f1, [b"Forwarded"], b"10.0.0.1", [(b"Forwarded", v)])
-    for _ in range(30000 if ctx.quick else 300000):
+    for _ in range(60000 if ctx.quick else 600000):
         fwd = rng.choice(FWD_SETS + [None])
         pool = trusted_pool(fwd)
         hdrs = rng.choice([None, None, [b"Forwarded"], [b"Forwarded", b"X-Forwarded-For"], [b"X-Real-IP", b"Forwarded"]])
@@ -1172,6 +1224,143 @@ def xff_classify(line, out):
 
 
 # ----------------------------------------------------------------------------------------------
+# end to end (thorough tier): the same generated configurations and requests against the REAL server
+# (sockets, h1.c / h2.c, connections.c, dlopen()ed modules); status and file sent vs the model
+# ----------------------------------------------------------------------------------------------
+def e2e_conf_body(cfg, root):
+    t = ""
+    if cfg.lc:
+        t += 'server.force-lowercase-filenames = "enable"\n'
+    t += profile_text(cfg.profile)
+    t += 'auth.backend = "plain"\nauth.backend.plain.userfile = "%s"\n' % os.path.join(root, "users.txt")
+    for b in cfg.blocks:
+        st = b.scope.text()
+        if st is None:
+            t += "".join(l + "\n" for l in b.body())
+        else:
+            t += st + " {\n" + "".join("  " + l + "\n" for l in b.body()) + "}\n"
+    return t
+
+
+def e2e_h1(E, port, rq):
+    t = rq.target
+    if rq.absolute is not None:
+        t = b"http://" + rq.absolute + t
+    hdrs = b""
+    if rq.host is not None:
+        hdrs += b"Host: " + rq.host + b"\r\n"
+    for k, v in rq.fields:
+        hdrs += k + b": " + v + b"\r\n"
+    raw = b"GET " + t + b" HTTP/1.1\r\n" + hdrs + b"Connection: close\r\n\r\n"
+    buf, closed = E.h1_exchange(port, [raw], read_timeout=5.0)
+    try:
+        rs = [r for r in E.parse_responses(buf, closed=True) if r["status"] >= 200]
+    except E.RespParseError as ex:
+        return "unparsable:%s" % ex, None
+    if len(rs) != 1:
+        return "responses:%d" % len(rs), None
+    return str(rs[0]["status"]), rs[0]["body"]
+
+
+def e2e_h2(E, port, rq):
+    c = E.H2Conn(port)
+    try:
+        c.request(1, "GET", rq.target, rq.host or b"www.example", [(k.lower(), v) for k, v in rq.fields])
+        c.pump(3.0, until=lambda fr: any((f[0] in (0, 1) and f[2] == 1 and f[1] & 1) or f[0] in (3, 7) for f in fr))
+        st = E.h2_collect(c.frames, c.hp).get(1)
+    except Exception as ex:              # (malformed header block for the encoder etc.)
+        return "client:%s" % type(ex).__name__, None
+    finally:
+        c.close()
+    if not st or not st["headers"]:
+        return "no-response", None
+    code = dict(st["headers"]).get(b":status", b"?").decode()
+    return code, st["body"]
+
+
+def run_e2e(ctx, root):
+    from .. import e2e as E
+    bd, err = E.build_server()
+    if bd is None:
+        ctx.broken.append({"kind": "server-build", "names": ["lighttpd"], "log": (err or "")[-3000:]})
+        return
+    rng = ctx.rng
+    peer = b"127.0.0.1"
+    fwd_sets = [[(b"127.0.0.1", b"trust")], [(b"127.0.0.0/8", b"trust"), (b"10.0.0.1", b"trust")],
+                [(b"10.0.0.1", b"trust")], [(b"all", b"trust")], None]
+    ncfg, nreq = 24, 40
+    cases = []
+    for ci in range(ncfg):
+        lc = rng.random() < 0.4
+        blocks = rand_blocks(rng, lc)
+        blocks[0].fwd = rng.choice(fwd_sets)
+        cfg = Config(blocks, rng.choice(PROFILES), lc)
+        base = rng.choice(FILES)
+        reqs = []
+        while len(reqs) < nreq:
+            rq = rand_request(rng, cfg, base if len(reqs) % 2 == 0 else None)
+            rq.peer = peer
+            t = rq.target
+            # keep to request-targets both clients can put on the wire as one token
+            if any(c <= 32 or c >= 127 for c in t) or not t.startswith(b"/"):
+                continue
+            if any(any(c < 32 or c >= 127 for c in v) for _, v in rq.fields):
+                continue
+            reqs.append(rq)
+        cases.append((cfg, reqs))
+    lines = [cfg.head(root) + " " + " ".join(r.tok() for r in reqs) for cfg, reqs in cases]
+    mo, rc, merr = C.run_lines([C.ltmodel_path(), "access"], lines)
+    if rc != 0 or len(mo) != len(lines):
+        ctx.broken.append({"kind": "model-run", "names": ["access e2e"], "log": merr[-2000:]})
+        return
+    ndis = nhit = n = 0
+    for (cfg, reqs), line, m in zip(cases, lines, mo):
+        if m in ("bad-op", "config-error"):
+            ctx.broken.append({"kind": "model-run", "names": ["access e2e: " + m], "log": line[:400]})
+            return
+        srv = E.Server(bd, e2e_conf_body(cfg, root), root=root,
+                       modules=("mod_access", "mod_auth", "mod_authn_file", "mod_extforward"))
+        try:
+            srv.start()
+            obs = [(e2e_h1 if rq.kind == 1 else e2e_h2)(E, srv.port, rq) for rq in reqs]
+        finally:
+            srv.stop()
+        rep = srv.sanitizer_report()
+        if rep:
+            ctx.violation("crash:e2e:" + rep[:60], "server crashed / sanitizer report in the e2e stream",
+                          {"property": ctx.pid, "kind": "sanitizer-or-crash", "correspondence": "e2e",
+                           "input": line, "stderr": rep[-4000:]}, found=False)
+            return
+        for rq, (st, body), mob in zip(reqs, obs, m.split(" ")[2:]):
+            n += 1
+            ctx.evaluations += 1
+            mst, muri, mpi, maddr, mf = mob.split(",")
+            ctx.keys["e2e:%d:%s:%s" % (rq.kind, st, "file" if st == "200" else "-")] += 1
+            sent = body if st == "200" and body in FILES else None
+            if sent is not None:
+                addr, _ = ref_addr(cfg, rq, unhx(muri) if muri != "-" else b"")
+                why = ref_authorised(cfg, rq, sent, addr)
+                if why:
+                    nhit += 1
+                    ctx.violation("oracle:e2e:" + why, verdict("protected file sent (real server): " + why,
+                                  "file %r, target %r (HTTP/%d), fields %r, config:\n%s"
+                                  % (sent, rq.target, rq.kind, rq.fields, cfg.text().decode())),
+                                  {"property": ctx.pid, "kind": "property-oracle", "correspondence": "e2e",
+                                   "input": line, "request": rq.tok(), "impl_obs": "%s %r" % (st, body[:80]),
+                                   "oracle_verdict": why}, found=True)
+            want_file = unhx(mf) if mf != "-" else None
+            if st != mst or (st == "200" and sent != want_file):
+                ndis += 1
+                if ndis <= 3:
+                    ctx.violation("corr:e2e:%s" % ("status" if st != mst else "file"),
+                                  "real server and model disagree (status %s vs %s)" % (st, mst),
+                                  {"property": ctx.pid, "kind": "correspondence", "correspondence": "e2e",
+                                   "input": line, "request": rq.tok(), "impl_obs": "%s %r" % (st, (body or b"")[:80]),
+                                   "model_obs": mob, "conf": cfg.text().decode()}, found=False)
+    ctx.streams.append({"name": "e2e(real lighttpd: h1 and h2 clients)", "cases": n, "disagreements": ndis,
+                        "oracle_hits": nhit, "configs": ncfg})
+
+
 def run(ctx):
     exe, err = build()
     if exe is None:
@@ -1183,25 +1372,30 @@ def run(ctx):
     q = ctx.quick
     ctx.differential("match(array_match_*, mod_access_check)", [exe], "access", match_lines(ctx),
                      match_oracle, match_classify)
-    ctx.differential("addr(inet_pton, getaddrinfo numeric)", [exe], "access", addr_lines(ctx),
-                     addr_oracle, addr_classify)
+    ctx.differential("addr(inet_pton, getaddrinfo numeric; PCRE2 UTF-8 check)", [exe], "access",
+                     addr_lines(ctx) + utf8_lines(ctx), addr_oracle, addr_classify)
     ctx.differential("xff(extract, trust, X-Forwarded-For/Forwarded walk)", [exe], "access", xff_lines(ctx),
                      xff_oracle, xff_classify)
-    lines = closure_lines(ctx, root, 4 if q else 7, 3 if q else 8)
+    lines = closure_lines(ctx, root, 4 if q else 7, 5 if q else 12)
     ctx.differential("srv(closure of respellings of protected resources)", [exe], "access", lines,
                      srv_oracle, srv_classify)
-    lines = srv_lines(ctx, root, 2500 if q else 30000, 16)
+    lines = srv_lines(ctx, root, 6000 if q else 60000, 16)
+    nreq = 16 * len(lines)
     ctx.differential("srv(random configurations)", [exe], "access", lines, srv_oracle, srv_classify)
     # the two constructions lighttpd does not make robust: differential only (no oracle); the Lean
     # counterexamples c03_url_cond_case_sensitive / c03_auth_suffix_cond_pathinfo state them
-    lines = srv_lines(ctx, root, 300 if q else 3000, 16, limits=True)
+    lines = srv_lines(ctx, root, 800 if q else 8000, 16, limits=True)
     ctx.differential("srv(known design limits, differential only)", [exe], "access", lines, None, srv_classify)
+    if not q:
+        run_e2e(ctx, root)
     ctx.exhaustive = False
     ctx.rule = ("cases: building-block calls (rule list, path), textual addresses, (forwarder set, peer, header "
                 "fields), and whole requests = (generated lighttpd.conf parsed by the real parser, request "
                 "spelling, entry protocol, peer, forwarded chain, credentials) run through the real plugin "
                 "dispatch; distinct = (stream, parse options, lowercase flag, scope kinds, mechanisms, set of "
                 "statuses) / (op, flags, outcome class) tuples observed")
+    ctx.notes.append("every srv case is one generated configuration with 16-24 requests (%d requests in the random "
+                     "stream); `evaluations` counts cases" % nreq)
     ctx.notes.append("protected-resource closure: 10 hand-written protections x %d parse-option profiles x "
                      "respellings composed to depth %d, both HTTP/1.x head and HTTP/2 pseudo-header entry"
                      % (len(PROFILES), 4 if q else 7))
